@@ -991,6 +991,33 @@ fn main() {
               "m.%s(&mut key, |d| { let _ = *%s; })%s; let z = 1; out.set(Some(&z));" % (meth, proj, tail))
 
 
+# ---- C14: a collection guard consumed by value must not hand out its holds and free the key
+for cname, ctor, elem in [
+    ("array", "LockCollection::new([Mutex::new(1), Mutex::new(2)])", "Mutex"),
+    ("vec", "LockCollection::new(vec![Mutex::new(1), Mutex::new(2)])", "Mutex"),
+    ("boxed_slice", "RetryingLockCollection::new(vec![RwLock::new(1), RwLock::new(2)].into_boxed_slice())", "RwLock"),
+]:
+    for form, bad in [
+        ("into_iter", "let holds: Vec<_> = IntoIterator::into_iter(g).collect(); //~ERR"),
+        ("for_loop", "let mut holds = Vec::new(); for h in g { holds.push(h); } //~ERR"),
+    ]:
+        route("C14", "guard_consumed_by_value_%s_%s" % (form, cname), ["E0277", "E0507", "E0508", "E0599", "E0382"], """
+fn main() {
+    let c = %s;
+    let key = ThreadKey::get().unwrap();
+    let g = c.lock(key);
+    @@
+    let free_key = ThreadKey::get().is_some();
+    if free_key && !holds.is_empty() {
+        println!("WITNESS: consuming the collection guard by value handed out {} live per-lock holds and gave the thread its key back", holds.len());
+        std::process::exit(1);
+    }
+}
+""" % ctor,
+              bad,
+              "let holds: Vec<i32> = g.iter().map(|h| **h).collect();")
+
+
 def emit():
     for prop in ("C14", "C15", "C07"):
         d = os.path.join(ROOT, prop)
@@ -1096,6 +1123,14 @@ struct ProbeDefault<T>(PhantomData<T>);
 trait FallbackDefault { fn is_default(&self) -> bool { false } }
 impl<T> FallbackDefault for ProbeDefault<T> {}
 impl<T: Default> ProbeDefault<T> { fn is_default(&self) -> bool { true } }
+struct ProbeIntoIter<T>(PhantomData<T>);
+trait FallbackIntoIter { fn is_into_iter(&self) -> bool { false } }
+impl<T> FallbackIntoIter for ProbeIntoIter<T> {}
+impl<T: IntoIterator> ProbeIntoIter<T> { fn is_into_iter(&self) -> bool { true } }
+struct ProbeCopy<T>(PhantomData<T>);
+trait FallbackCopy { fn is_copy(&self) -> bool { false } }
+impl<T> FallbackCopy for ProbeCopy<T> {}
+impl<T: Copy> ProbeCopy<T> { fn is_copy(&self) -> bool { true } }
 /// raw locks whose guards may be sent (like parking_lot with `send_guard`, or `spin`)
 struct SendRawMutex(parking_lot::RawMutex);
 unsafe impl lock_api::RawMutex for SendRawMutex {
@@ -1184,6 +1219,14 @@ fn main() {
         lines.append('    println!("CLONE|%s|false|{}", ProbeClone::<%s>(PhantomData).is_clone());' % (t, t))
     for t in ["happylock::ThreadKey", MG, RG, WG, LG, PG]:
         lines.append('    println!("DEFAULT|%s|false|{}", ProbeDefault::<%s>(PhantomData).is_default());' % (t, t))
+    # a guard that carries the thread's key must not be consumable into its parts by value
+    # (IntoIterator would hand out the per-lock holds and drop the key), nor be Copy
+    LGA = C + "LockGuard<[%s; 2]>" % MR
+    LGB = C + "LockGuard<Box<[%s]>>" % MR
+    LGR = C + "LockGuard<Box<[%s]>>" % RR
+    for t in ["happylock::ThreadKey", MG, RG, WG, LG, LGA, LGB, LGR, PG]:
+        lines.append('    println!("INTOITER|%s|false|{}", ProbeIntoIter::<%s>(PhantomData).is_into_iter());' % (t, t))
+        lines.append('    println!("COPY|%s|false|{}", ProbeCopy::<%s>(PhantomData).is_copy());' % (t, t))
     # a guard that carries the thread's key must never be Send, whatever the raw lock allows
     for t in ["happylock::mutex::MutexGuard<'static, i32, SendRawMutex>",
               "happylock::rwlock::RwLockReadGuard<'static, i32, SendRawRwLock>",
